@@ -4,7 +4,7 @@
    is false for the rule of the unchanged tree (identity_rules = the if-chains with the test
    preferred_type.__init__ is Exception.__init__): the test is a runtime fact of the type that
    is independent of et_plain -- on CPython 3.12 it is false for every builtin exception class and
-   every class derived from one (each builtin class owns its slot wrapper).  Witness: IndexError.
+   every class derived from one (each builtin class owns its slot wrapper).
    What does hold is exception_type_guarded below. *)
 From Coq Require Import List String Bool Arith.
 Import ListNotations.
@@ -15,7 +15,9 @@ Local Open Scope list_scope.
 Theorem exception_type_full_refuted :
   exists t : exc_type, et_plain t = true /\
     create_for pass_through_types known_string_constructor_errors identity_rules t = Staging.
-Proof. exists (mkexc "builtins.IndexError" false true). split; vm_compute; reflexivity. Qed.
+(* witness: class E(ValueError): pass -- in no table, before or after the proposed fix; on the tables of the
+   unchanged tree "builtins.IndexError" is a witness as well (observed on the implementation) *)
+Proof. exists (mkexc "user.E" false true). split; vm_compute; reflexivity. Qed.
 
 (* the guarded statement: whenever the code's own test agrees with "plain" the type is kept *)
 Theorem exception_type_guarded : forall t : exc_type,
